@@ -270,6 +270,9 @@ func (p *parser) parseObjectProperty() ast.Property {
 		idx := p.idx
 		_, value = p.parseObjectPropertyKey()
 		parameterList := p.parseFunctionParameterList()
+		if len(parameterList.List) != 0 {
+			p.error(idx, "Getter must not have any formal parameters.")
+		}
 
 		node := &ast.FunctionLiteral{
 			Function:      idx,
